@@ -2,8 +2,10 @@ import Bch.Generated.Facts
 /-
 State-footprint tie (Bech32).
 The model of this source group carries exactly the state listed here from one call to the next. The lists are
-re-extracted from /repo's current source by `harness facts` (go/ast): the field types of every struct declared in
-the group (names dropped, sorted) and the types of the package-level variables some function may modify.
+re-extracted from /repo's current source by `harness facts` (go/ast): the field types of every exported struct type of
+the group and of the package structs reachable from its fields (names dropped; each field reduced to its
+shape - named / pointer / slice / array / map - so that a change of representation of the same piece of state
+does not count, a new field does; unexported per-call helper records are not state) and the types of the package-level variables some function may modify.
 New state (a cache field, a pooled buffer, a memo variable) is state the model does not have: the theorems of the
 properties resting on this model then no longer speak for the code until the model is extended.
 -/
